@@ -107,4 +107,12 @@ theorem xlate_hostport (b : List UInt8) :
     ∃ h p, C20Xlate.obsHP (Generated.C20.XHostport.run { p0 := b }) = .ok (h, p) ∧ Spec.hostportOk (C20Xlate.chars b) h p = true :=
   C20Xlate.xhostport_spec b
 
+theorem xlate_atoi (buf : List UInt8) (i : Int) (pad : Nat) (hlo : -2^63 < i) (hhi : i < 2^63) (hpad : pad ≤ 127) :
+    C20Xlate.obsA (Generated.C20.XAtoi.run { p0 := buf, p1 := i, p2 := (pad : Int) }) = .ok (C20Xlate.chars buf ++ Spec.decimal i pad) :=
+  C20Xlate.xatoi_eq_decimal buf i pad hlo hhi hpad
+
+theorem xlate_atoi_total (buf : List UInt8) (i : Int) (pad : Nat) (hlo : -2^63 ≤ i) (hhi : i < 2^63) (hpad : pad ≤ 127) :
+    ∃ r, C20Xlate.obsA (Generated.C20.XAtoi.run { p0 := buf, p1 := i, p2 := (pad : Int) }) = .ok r :=
+  C20Xlate.xatoi_total buf i pad hlo hhi hpad
+
 end Fabio.Props.C20Pins
